@@ -167,6 +167,7 @@ def run(ctx):
     # R18.7 (shared with C20 R20.6): re-opening a cache file keeps its stored findings
     from .C20 import r20_6
     r20_6(ctx, 'R18.7')
+    r18_8(ctx)
 
     # R18.3
     ci = F.one('CppCheck::checkInternal')
@@ -254,3 +255,37 @@ def run(ctx):
         ctx.ob('R18.4', 'accept#%d' % i, ok,
                'accepting return at line %s is %s by attr == std::to_string(hash)' % (n.get('l'), 'dominated' if ok else 'NOT dominated'),
                '%s:%s' % (sk['file'], n.get('l')))
+
+
+def r18_8(ctx):
+    """R18.8  file-to-cache mapping: AnalyzerInformation::getAnalyzerInfoFileFromFilesTxt may return an entry from inside its loop only when the entry's path
+    equals the looked-up path; a tail match (endsWith) may only provide the fallback that is returned after all entries were seen.  Otherwise two files
+    whose paths are tails of one another ("main.c", "src/main.c") share one cache file and overwrite each other's results."""
+    F = ctx.facts
+    ctx.rule('R18.8', 'the files.txt lookup returns a tail match only when no entry has exactly the looked-up path')
+    f = F.one('AnalyzerInformation::getAnalyzerInfoFileFromFilesTxt')
+    body = F.body(f)['body']
+    loop = next((x for x in walk(body) if x.get('k') in ('WhileStmt', 'ForStmt', 'CXXForRangeStmt')), None)
+    if loop is None:
+        raise AnalysisBroken('getAnalyzerInfoFileFromFilesTxt: loop over the entries not found')
+    src_param = f['params'][1]['di'] if len(f.get('params', [])) > 1 else None
+
+    def cond(n, truth):
+        n0 = strip(n)
+        if n0 is None:
+            return ()
+        if n0.get('k') == 'CXXOperatorCallExpr' and n0.get('op') in ('==', '!=') and any(y.get('di') == src_param for y in walk(n0)) and \
+                any(y.get('k') == 'MemberExpr' and (y.get('n') or '').endswith('Info::sourceFile') for y in walk(n0)):
+            return (('path-equal', (n0['op'] == '==') == truth),)
+        return ()
+    r = paths.analyse(body, cond=cond, observe=lambda n: n.get('k') == 'ReturnStmt')
+    inner = [(n, st) for kind, n, st in r.exits if kind == 'return' and any(y is n for y in walk(loop))]
+    tails = [x for x in walk(body) if x.get('k') == 'CallExpr' and x.get('fn') == 'endsWith']
+    if not inner:
+        ctx.ob('R18.8', 'exact-match-first', not tails, 'no return inside the loop' if not tails else
+               'the lookup has no exact-match return inside its loop although it accepts tail matches', '%s:%d' % (f['file'], f['line']))
+        return
+    bad = [n for n, st in inner if ('path-equal', True) not in st]
+    ctx.ob('R18.8', 'exact-match-first', not bad, 'an entry is returned from inside the loop only for an exact path match; a tail match is only the fallback' if not bad else
+           'getAnalyzerInfoFileFromFilesTxt returns an entry at line %s without an exact path comparison (first tail match wins): `main.c` and `src/main.c` analysed together get the '
+           'same cache file' % bad[0]['l'], '%s:%s' % (f['file'], bad[0]['l'] if bad else f['line']))
